@@ -115,12 +115,20 @@ var _ encoding.BinaryMarshaler = (*Response)(nil)
 // shorter response. [ParseResponse] checks the length and removes the field.
 const bodyLengthField = "X-Httpcache-Stored-Body-Length"
 
+// unframed reports whether a response has a body whose end nothing in its
+// serialised form marks: a status that allows a body, no Content-Length, no
+// chunked encoding.
+func unframed(resp *http.Response) bool {
+	bodyAllowed := resp.StatusCode >= 200 && resp.StatusCode != http.StatusNoContent && resp.StatusCode != http.StatusNotModified
+	return bodyAllowed && resp.ContentLength < 0 && len(resp.TransferEncoding) == 0
+}
+
 func (r Response) MarshalBinary() ([]byte, error) {
 	respBytes, err := httputil.DumpResponse(r.Data, true)
 	if err != nil {
 		return nil, fmt.Errorf("failed to marshal response: %w", err)
 	}
-	if r.Data.ContentLength < 0 && len(r.Data.TransferEncoding) == 0 {
+	if unframed(r.Data) {
 		if i := bytes.Index(respBytes, []byte("\r\n\r\n")); i >= 0 {
 			line := fmt.Sprintf("\r\n%s: %d", bodyLengthField, len(respBytes)-(i+4))
 			respBytes = append(respBytes[:i:i], append([]byte(line), respBytes[i:]...)...)
@@ -172,11 +180,18 @@ func ParseResponse(data []byte, req *http.Request) (resp *Response, err error) {
 	if err != nil {
 		return nil, errors.Join(errInvalidResponse, fmt.Errorf("failed to read response body: %w", err))
 	}
-	if v := r.Header.Get(bodyLengthField); v != "" && r.ContentLength < 0 && len(r.TransferEncoding) == 0 {
+	// The length recorded for an unframed body is the LAST line of that name
+	// (the origin may send a field of the same name; its lines come first and
+	// are left alone). [http.ReadResponse] reports exactly the responses for
+	// which [unframed] held when the entry was written as unframed again.
+	if vs := r.Header.Values(bodyLengthField); len(vs) > 0 && unframed(r) {
+		v := vs[len(vs)-1]
 		if n, err := strconv.Atoi(v); err != nil || n != len(body) {
-			return nil, errors.Join(errInvalidResponse, fmt.Errorf("stored body has %d bytes, %s recorded", len(body), v))
+			return nil, errors.Join(errInvalidResponse, fmt.Errorf("stored body has %d bytes, %q recorded", len(body), v))
 		}
-		r.Header.Del(bodyLengthField)
+		if r.Header.Del(bodyLengthField); len(vs) > 1 {
+			r.Header[bodyLengthField] = vs[:len(vs)-1]
+		}
 	}
 	r.Body = io.NopCloser(bytes.NewReader(body))
 	// The serialised form may carry a Connection field that belongs to the dump,
